@@ -49,10 +49,10 @@ func init() {
 			return stor.DevCases(n)
 		},
 		// checkptr polices the unsafe string conversions of the directory-name metadata (metadata.go)
-		Variants: func(tier string) []string { return []string{"default", "checkptr"} },
-		Run: run,
+		Variants:    func(tier string) []string { return []string{"default", "checkptr"} },
+		Run:         run,
 		CaseTimeout: 10 * time.Minute,
-		Env: func(tier, variant string) []string { return []string{"GOMAXPROCS=2"} },
+		Env:         func(tier, variant string) []string { return []string{"GOMAXPROCS=2"} },
 		Require: []string{"sessions_accepted", "sessions_rejected", "writes_rejected", "moves_decreasing", "moves_gap_ge_2p32", "moves_gap_eq_max", "counts_ge_2p32", "counts_eq_max",
 			"reopen_after_rejected_session", "dbwriter_writes", "dbwriter_bulk_writes", "csv_imports", "csv_imports_older_than_stored", "meta_prefixes", "meta_bitflips", "meta_forged_nblocks", "meta_random_blobs", "meta_open_errors", "meta_open_successes"},
 	})
@@ -783,5 +783,3 @@ func head(b []byte, n int) []byte {
 	}
 	return b
 }
-
-
